@@ -12,7 +12,8 @@ TABLE = {
             ('OpyVerif.Proofs.C06', 'Opy', r'clip(Pos|All|Hyper|Row)?_(inBox|mem|shape|length|inUnitBox)|boundsOk_unit'),
             ('OpyVerif.Proofs.C03', 'Opy', r'clip_precedes_hook|sweep_follows_hook'),
             ('OpyVerif.Generated.Skeletons', 'Opy.Gen', r'skel_\w+_good|evalSites_ok|evalSites_nonempty'),
-            ('OpyVerif.Proofs.InitCode', 'Opy', None), ('OpyVerif.Generated.Init', 'Opy.Gen', None)],
+            ('OpyVerif.Proofs.InitCode', 'Opy', None), ('OpyVerif.Generated.Init', 'Opy.Gen', None),
+            ('OpyVerif.Generated.FormulasC18', 'Opy.Gen', r'uniformWrapper_eq|gaussianWrapper_eq')],
     'C02': [('OpyVerif.Proofs.C02', 'Opy', None),
             ('OpyVerif.Proofs.SweepCode', 'Opy', None), ('OpyVerif.Proofs.SweepProg', 'Opy', None),
             ('OpyVerif.Generated.Sweeps', 'Opy.Gen', None),
@@ -39,7 +40,8 @@ TABLE = {
             ('OpyVerif.Generated.Guards', 'Opy.Gen', r'guard_mismatches|guardTable_size'),
             ('OpyVerif.Proofs.C14', 'Opy.G', r'agree_sound|accepts_iff_all_domains'),
             ('OpyVerif.Proofs.C18real', 'Opy', r'uniformAffine_mem'),
-            ('OpyVerif.Proofs.InitProg', 'Opy', None), ('OpyVerif.Proofs.InitCode', 'Opy', None), ('OpyVerif.Generated.Init', 'Opy.Gen', None)],
+            ('OpyVerif.Proofs.InitProg', 'Opy', None), ('OpyVerif.Proofs.InitCode', 'Opy', None), ('OpyVerif.Generated.Init', 'Opy.Gen', None),
+            ('OpyVerif.Generated.FormulasC18', 'Opy.Gen', r'uniformWrapper_eq|gaussianWrapper_eq')],
     'C07': [('OpyVerif.Proofs.C07', 'Opy', None),
             ('OpyVerif.Proofs.Accept', 'Opy', r'accept_private|accept_pair'),
             ('OpyVerif.Generated.Accepts', 'Opy.Gen', r'acceptSites_ok')],
